@@ -34,6 +34,7 @@ type frame struct {
 	loopHead map[*loop]*headInfo
 	parent  *frame
 	innerEntry map[[2]*loop][]Term
+	viaFuncParam bool
 }
 
 type retInfo struct {
